@@ -48,6 +48,10 @@ CHECKS["C08"] = ("axis-layout typing of numpy code: block-wise evaluation of mov
 CHECKS["C09"] = ("axis-layout loop invariant of tensor.Functor.__call__ by abstract evaluation of one generic box step and one generic swap step; dispatch analysis; flag-dagger typestate of every reader of a box's array",
     "Decides that the contraction loop keeps the invariant 'array layout = [F(dom) | F(scan)]' (hence computes the layer-by-layer composite for every diagram), the dispatch order/totality and structural "
     "images, and that every reader of a box's array handles the dagger flag first (functor, to_tn). Spider arrays are deltas. Numeric values are not examined.", TB, "DESIGN.md §4 C09")
+CHECKS["C14"] = ("abstract construction of generic box instances and abstract execution of every subs / lambdify as resolved along the MRO (engine C′); provenance and shape rules for free_symbols and the diagram-level rebuilds",
+    "Decides reconstruction completeness: for every concrete box class and every combination of its finite constructor parameters, subs and lambdify (including the inherited generic rebuilds) either return the box "
+    "or bind against its constructor, keep name, dom, cod, dagger flag and mixedness, and carry rsubs / lambdify applied to the old data; free_symbols comes from the same data the arrays read and is the union "
+    "over boxes; diagrams rebuild layer by layer with the same whiskers. Numeric commutation on concrete floats (sympy/numpy interplay) is not decided.", TB, "DESIGN.md §4 C14")
 NOT_YET = "check not built yet in this round (static rules designed in DESIGN.md §4; will be claimed when the rule module lands)"
 NOT_APPLICABLE = {("C%02d" % i): NOT_YET for i in range(1, 21) if ("C%02d" % i) not in CHECKS}
 NOTES = ("All checks are static analyses of /repo/discopy's source (python -m sa.check <id>); exit 0 / 1 (VIOLATION) / 2 (ANALYSIS-ERROR). "
